@@ -59,6 +59,10 @@ func (m *Machine) codecStub(fn *ssa.Function) (func(args []value) value, bool) {
 	}
 	return func(args []value) value {
 		m.foreign["bkl."+fn.Name()+" (codec boundary, native)"]++
+		if op, isOp := args[0].(opaque); isOp && op.kind == "filebytes" {
+			// a virtual file: reading and decoding yield its logical documents
+			return tuple{m.vfileDocs(op.payload.(*fileBytes)), iface{}}
+		}
 		in, ok := args[0].([]value)
 		if !ok {
 			unsupported("codec %s: input %T", fn.Name(), args[0])
